@@ -1,7 +1,7 @@
 (* C20 — mocks replay scripted expectations faithfully and report deviations.
    Property statements only; each is closed by [exact] of a lemma proved in C20/Proofs.v. *)
 From Coq Require Import List ZArith.
-From SV Require Import C20.Model C20.Proofs.
+From SV Require Import C20.Model C20.Proofs C20.ConsumerModel C20.ConsumerProofs.
 Import ListNotations.
 
 (* The async mock is exactly the zip of messages with expectations (i-th message, i-th expectation). *)
@@ -24,7 +24,107 @@ Theorem c20_reporter_exact : forall c es ms, reports (async_history c es ms) = s
 Proof. exact reporter_exact. Qed.
 Print Assumptions c20_reporter_exact.
 
+(* --- sync mock: SendMessage --- *)
 Theorem c20_sync_returns_scripted : forall s m,
-  snd (fst (step_sync s m)) = sync_expected s m /\ snd (step_sync s m) = deviation (hd_error (exps s)) m.
+  r_ret (snd (step_sync s m)) = sync_expected s m /\
+  r_rep (snd (step_sync s m)) = deviation (hd_error (exps s)) m /\
+  r_touch (snd (step_sync s m)) = [sync_touch_expected s m] /\
+  exps (fst (step_sync s m)) = tl (exps s).
 Proof. exact sync_returns_scripted. Qed.
 Print Assumptions c20_sync_returns_scripted.
+
+(* --- sync mock: SendMessages with enough expectations: len(msgs) expectations are consumed, the call returns
+   the scripted outcome of the first failing expectation (nil if none) and reports its deviation, offsets go to
+   the messages before the failure and to no others --- *)
+Theorem c20_sync_batch_first_failure : forall s ms, (length ms <= length (exps s))%nat ->
+  let ff := first_failure (exps s) ms in
+  let k := succ_prefix (exps s) ms in
+  r_ret (snd (step_batch s ms)) = batch_ret ff /\
+  r_rep (snd (step_batch s ms)) = batch_reports ff /\
+  exps (fst (step_batch s ms)) = skipn (length ms) (exps s) /\
+  length (exps (fst (step_batch s ms))) = (length (exps s) - length ms)%nat /\
+  last (fst (step_batch s ms)) = (last s + Z.of_nat k)%Z /\
+  map snd (r_touch (snd (step_batch s ms))) = map Some (zseq (last s + 1)%Z k) ++ repeat None (length ms - k).
+Proof. exact sync_batch_enough. Qed.
+Print Assumptions c20_sync_batch_first_failure.
+
+Theorem c20_sync_batch_insufficient : forall s ms, (length (exps s) < length ms)%nat ->
+  step_batch s ms = (s, {| r_ret := SErr err_out_of_expectations; r_rep := [RepInsufficient];
+                            r_touch := map (fun _ => untouched) ms; r_asked := [] |}).
+Proof. exact sync_batch_insufficient. Qed.
+Print Assumptions c20_sync_batch_insufficient.
+
+(* offsets increase by one per success across any mix of SendMessage and SendMessages calls *)
+Theorem c20_sync_offsets_increase : forall cs s,
+  consecutive_from (last s) (call_offsets (snd (run_calls s cs))) /\
+  last (fst (run_calls s cs)) = (last s + Z.of_nat (length (call_offsets (snd (run_calls s cs)))))%Z.
+Proof. exact sync_offsets_increase. Qed.
+Print Assumptions c20_sync_offsets_increase.
+
+Theorem c20_sync_close_exact : forall s,
+  sync_close s = match exps s with [] => [] | _ => [RepLeftOver (Z.of_nat (length (exps s)))] end.
+Proof. exact sync_close_exact. Qed.
+Print Assumptions c20_sync_close_exact.
+
+(* --- 1-2 concurrent senders on the async input: stated over the arrival order, which is any interleaving --- *)
+Theorem c20_concurrent_senders : forall c es ms1 ms2 arr id,
+  interleave ms1 ms2 arr ->
+  async_history c es arr = spec_async c es arr 0%Z /\
+  (all_visible c -> (length (ms1 ++ ms2) <= length es)%nat -> NoDup (map m_id (ms1 ++ ms2)) ->
+   outcomes_of id (async_history c es arr) = if in_dec Z.eq_dec id (map m_id (ms1 ++ ms2)) then 1%nat else 0%nat).
+Proof. exact concurrent_senders. Qed.
+Print Assumptions c20_concurrent_senders.
+
+(* --- mock consumer (mocks/consumer.go): statements over the history of any script of actions --- *)
+(* per partition: yielded messages, numbered 1, 2, 3, ... in yield order = taken out of the channel (received or drained
+   by Close, in temporal order) ++ still buffered; yielded errors = received / returned by Close / drained ++ buffered *)
+Theorem c20_consumer_sequence : forall acts k,
+  let s := fst (crun cinit acts) in
+  let tr := snd (crun cinit acts) in
+  numbered 1%Z (accepted k tr) = taken k tr ++ queue k s /\
+  eaccepted k tr = etaken k tr ++ equeue k s.
+Proof. exact consumer_sequence. Qed.
+Print Assumptions c20_consumer_sequence.
+
+(* what the application itself received is a gap-free prefix of the numbered yields *)
+Theorem c20_consumer_reads_prefix : forall acts k,
+  let s := fst (crun cinit acts) in
+  let tr := snd (crun cinit acts) in
+  numbered 1%Z (accepted k tr) = reads k tr ++ dropped k tr ++ queue k s.
+Proof. exact consumer_reads_prefix. Qed.
+Print Assumptions c20_consumer_reads_prefix.
+
+(* HighWaterMarkOffset = number of YieldMessage calls so far + 1 (= last yielded offset + 1 while the channel is open) *)
+Theorem c20_consumer_hwm : forall acts k tr1 e tr2 v,
+  snd (crun cinit acts) = tr1 ++ e :: tr2 -> t_act e = AHwm k -> t_obs e = OHwm v ->
+  v = (1 + Z.of_nat (length (ycalls k tr1)))%Z.
+Proof. exact consumer_hwm. Qed.
+Print Assumptions c20_consumer_hwm.
+
+Theorem c20_consumer_open_all_yields_accepted : forall acts k pc,
+  find k (c_pcs (fst (crun cinit acts))) = Some pc -> pc_closed pc = false ->
+  accepted k (snd (crun cinit acts)) = ycalls k (snd (crun cinit acts)).
+Proof. exact consumer_open_all_yields_accepted. Qed.
+Print Assumptions c20_consumer_open_all_yields_accepted.
+
+(* the reporter is called for, and only for, the causes enumerated by [cause] (in any state, for any action) *)
+Theorem c20_consumer_reports_exact : forall s a r, In r (t_rep (snd (cstep s a))) <-> cause s a r.
+Proof. exact consumer_reports_exact. Qed.
+Print Assumptions c20_consumer_reports_exact.
+
+Theorem c20_consumer_never_consumed : forall acts k,
+  let s := fst (crun cinit acts) in
+  let tr := snd (crun cinit acts) in
+  In (CRNotStarted k) (t_rep (snd (cstep s ACloseAll))) <-> (expects k tr <> [] /\ consumed_in k tr = false).
+Proof. exact consumer_never_consumed. Qed.
+Print Assumptions c20_consumer_never_consumed.
+
+Theorem c20_consumer_consume_reports : forall acts k off r,
+  let s := fst (crun cinit acts) in
+  let tr := snd (crun cinit acts) in
+  In r (t_rep (snd (cstep s (AConsume k off)))) <->
+  (r = CRNoExp k /\ expects k tr = []) \/
+  (exists exp, r = CROffset k exp off /\ hd_error (expects k tr) = Some exp /\ consumed_in k tr = false /\
+               exp <> any_offset /\ exp <> off).
+Proof. exact consumer_consume_reports. Qed.
+Print Assumptions c20_consumer_consume_reports.
